@@ -1,4 +1,4 @@
-/* gd.h — common part of the C17 glyph-DRAWING harnesses (route H): no_mask.c, add_glyphs.c.
+/* gd.h — common part of the C17 glyph-DRAWING harnesses (route H): no_mask.c, add_glyphs.c, glyph_info.c.
  *
  * The real pixman-glyph.c is #included unmodified; the functions under contract are
  * pixman_composite_glyphs_no_mask, add_glyphs (static) and pixman_composite_glyphs.
@@ -17,9 +17,9 @@
  * Pixel identity then rests on C01/C02 (the routine looked up for (op, formats, flags) computes the operator).
  *
  * Recording stubs (assumptions of every drawing job; each is the subject of another property):
- *   _pixman_implementation_lookup_composite   records its arguments; the k-th lookup returns (&vd_imp[k], vd_funcs[k]):
+ *   _pixman_implementation_lookup_composite   records its arguments; the k-th lookup returns (VD_IMP (k), vd_func<k>):
  *                                             a DIFFERENT routine for every lookup, so a stale memo is visible    (C02)
- *   vd_funcs[k]                               record the pixman_composite_info_t and their own index
+ *   vd_func0..2                               record the pixman_composite_info_t and their own index
  *   _pixman_image_validate                    counts; flags / extended_format_code of the images are inputs (C14)
  *   pixman_image_create_solid_fill            returns the static "white" image or NULL (input)               (C15/C20)
  *   pixman_image_unref / create_bits / set_component_alpha / composite32 (the latter only without pixman.c)
@@ -27,7 +27,7 @@
  *                                             non-empty boxes inside the destination bounds; C03 region.* jobs);
  *                                             -DVD_REAL_REGION=1: the real function of pixman.c on the real
  *                                             pixman-region32.c (destination clip: none or one rectangle)
- *   global_implementation                     a dummy object (&vd_top)
+ *   global_implementation                     a dummy token (VD_TOP); implementations are opaque tokens
  */
 #ifndef GD_H
 #define GD_H
@@ -47,7 +47,7 @@
 #define VD_NBOX 1               /* clip boxes per glyph (no_mask only) */
 #endif
 #define VD_MAXCALL (VD_NG * VD_NBOX + 1)     /* one more than the specification can ask for */
-#define VD_MAXLK 5
+#define VD_MAXLK 3                /* the specification asks for at most VD_NG * VD_NBOX <= 2 lookups */
 
 /* every coordinate of the request lives in +-2^29 (the property's "within int32 arithmetic range", same as C03) */
 #define VD_R (1 << 29)
@@ -56,21 +56,41 @@
 #define VD_COVER FAST_PATH_SAMPLES_COVER_CLIP_NEAREST
 
 /* ------------------------------------------------------------------ objects */
-static pixman_implementation_t vd_top, vd_imp[VD_MAXLK];
+/* implementations are never looked into by the glyph code: opaque tokens (pixman_implementation_t is 2 KB of function
+ * pointer tables; five of them as real objects made the formula 10x larger) */
+static long vd_top_tok, vd_imp_tok0, vd_imp_tok1, vd_imp_tok2;
+#define VD_TOP    ((pixman_implementation_t *) &vd_top_tok)
+#define VD_IMP(k) ((pixman_implementation_t *) ((k) == 0 ? &vd_imp_tok0 : (k) == 1 ? &vd_imp_tok1 : &vd_imp_tok2))
 /* separate objects, not arrays: an array of structs indexed through a symbolic pointer is much dearer in CBMC */
-static pixman_image_t vd_src, vd_dest, vd_white, vd_gimg0, vd_gimg1;
+/* images are objects of the LARGEST member type of the pixman_image_t union (bits_image_t), handed to the code as
+ * pixman_image_t *: CBMC re-derives every member view of a union object on each write (byte_update of the whole union:
+ * measured 660k variables for 30 field writes); on a struct object the same accesses are plain member accesses.
+ * All harness-side writes go through the *_s names. */
+static bits_image_t vd_src_s, vd_dest_s, vd_white_s, vd_gimg0_s, vd_gimg1_s, vd_final_s /* destination of pixman_composite_glyphs */;
+#define VD_IMG(s)  ((pixman_image_t *) &(s))
+#define vd_src_p   VD_IMG (vd_src_s)
+#define vd_dest_p  VD_IMG (vd_dest_s)
+#define vd_white_p VD_IMG (vd_white_s)
+#define vd_final_p VD_IMG (vd_final_s)
 static glyph_t vd_g0, vd_g1, vd_other;
 #define VD_GLYPH(i) ((i) ? &vd_g1 : &vd_g0)
-#define VD_GIMG(i)  ((i) ? &vd_gimg1 : &vd_gimg0)
+#define VD_GIMG_S(i) ((i) ? &vd_gimg1_s : &vd_gimg0_s)
 static pixman_glyph_cache_t vd_cache;
 static pixman_glyph_t vd_req[2];
 static char vd_key[3];
 
 /* ------------------------------------------------------------------ recorders */
+/* Slots are separate objects selected by if-chains, never arrays indexed by a (symbolic) counter: an array of structs
+ * updated at a symbolic index inside each of the routines the function-pointer call may reach made the formula 2.4M clauses. */
+typedef struct { pixman_implementation_t *top; pixman_op_t op; pixman_format_code_t sf, mf, df; uint32_t sfl, mfl, dfl; } vd_lk_t;
+typedef struct { int id; pixman_implementation_t *imp; pixman_composite_info_t info; int seq; } vd_call_t;
+static vd_lk_t vd_lk0, vd_lk1, vd_lk2;
+static vd_call_t vd_call0, vd_call1, vd_call2;
+#define VD_LK(k)   ((k) == 0 ? &vd_lk0 : (k) == 1 ? &vd_lk1 : &vd_lk2)
+#define VD_CALL(c) ((c) == 0 ? &vd_call0 : (c) == 1 ? &vd_call1 : &vd_call2)
 static int vd_seq;                                  /* global event counter (ordering of calls) */
 static int vd_nlookup, vd_lk_overflow, vd_ncalls;
-static struct { pixman_implementation_t *top; pixman_op_t op; pixman_format_code_t sf, mf, df; uint32_t sfl, mfl, dfl; } vd_lk[VD_MAXLK];
-static struct { int id; pixman_implementation_t *imp; pixman_composite_info_t info; int seq; } vd_call[VD_MAXCALL];
+static int vd_cur_id; static pixman_implementation_t *vd_cur_imp;
 static int vd_nvalidate, vd_nlog;
 static int vd_nwhite_create, vd_white_fail, vd_white_color_ok;
 static uint32_t vd_white_flags;
@@ -85,18 +105,15 @@ static void vd_record (int id, pixman_implementation_t *imp, pixman_composite_in
 {
     if (vd_ncalls < VD_MAXCALL)
     {
-        vd_call[vd_ncalls].id = id;
-        vd_call[vd_ncalls].imp = imp;
-        vd_call[vd_ncalls].info = *info;
-        vd_call[vd_ncalls].seq = vd_seq;
+        vd_call_t *r = VD_CALL (vd_ncalls);
+        r->id = id; r->imp = imp; r->info = *info; r->seq = vd_seq;
     }
     vd_ncalls++; vd_seq++;
 }
+/* the routine handed out by the k-th lookup */
 static void vd_func0 (pixman_implementation_t *imp, pixman_composite_info_t *info) { vd_record (0, imp, info); }
 static void vd_func1 (pixman_implementation_t *imp, pixman_composite_info_t *info) { vd_record (1, imp, info); }
 static void vd_func2 (pixman_implementation_t *imp, pixman_composite_info_t *info) { vd_record (2, imp, info); }
-static void vd_func3 (pixman_implementation_t *imp, pixman_composite_info_t *info) { vd_record (3, imp, info); }
-static void vd_func4 (pixman_implementation_t *imp, pixman_composite_info_t *info) { vd_record (4, imp, info); }
 
 void
 _pixman_implementation_lookup_composite (pixman_implementation_t *toplevel, pixman_op_t op,
@@ -106,19 +123,21 @@ _pixman_implementation_lookup_composite (pixman_implementation_t *toplevel, pixm
                                          pixman_implementation_t **out_imp, pixman_composite_func_t *out_func)
 {
     int k = vd_nlookup;
+    vd_lk_t *r;
     if (k >= VD_MAXLK) { k = VD_MAXLK - 1; vd_lk_overflow = 1; }
-    vd_lk[k].top = toplevel; vd_lk[k].op = op;
-    vd_lk[k].sf = src_format; vd_lk[k].mf = mask_format; vd_lk[k].df = dest_format;
-    vd_lk[k].sfl = src_flags; vd_lk[k].mfl = mask_flags; vd_lk[k].dfl = dest_flags;
-    *out_imp = &vd_imp[k];
-    *out_func = k == 0 ? vd_func0 : k == 1 ? vd_func1 : k == 2 ? vd_func2 : k == 3 ? vd_func3 : vd_func4;
+    r = VD_LK (k);
+    r->top = toplevel; r->op = op;
+    r->sf = src_format; r->mf = mask_format; r->df = dest_format;
+    r->sfl = src_flags; r->mfl = mask_flags; r->dfl = dest_flags;
+    *out_imp = VD_IMP (k);
+    *out_func = k == 0 ? vd_func0 : k == 1 ? vd_func1 : vd_func2;
     vd_nlookup++; vd_seq++;
 }
 
 #if !VD_REAL_REGION
 pixman_implementation_t *global_implementation;      /* with pixman.c in the program it is defined there */
 #endif
-pixman_implementation_t *_pixman_choose_implementation (void) { return &vd_top; }
+pixman_implementation_t *_pixman_choose_implementation (void) { return VD_TOP; }
 void _pixman_log_error (const char *f, const char *m) { (void) f; (void) m; vd_nlog++; }
 void _pixman_image_validate (pixman_image_t *image) { (void) image; vd_nvalidate++; }
 
@@ -128,16 +147,16 @@ pixman_image_t *pixman_image_create_solid_fill (const pixman_color_t *c)
     vd_white_color_ok = c->red == 0xffff && c->green == 0xffff && c->blue == 0xffff && c->alpha == 0xffff;
     if (vd_white_fail)
         return (pixman_image_t *) 0;
-    vd_white.type = SOLID;
-    vd_white.common.ref_count = 1;
-    vd_white.common.extended_format_code = PIXMAN_solid;
-    vd_white.common.flags = vd_white_flags;          /* what validation leaves: an input */
-    return &vd_white;
+    vd_white_s.common.type = SOLID;
+    vd_white_s.common.ref_count = 1;
+    vd_white_s.common.extended_format_code = PIXMAN_solid;
+    vd_white_s.common.flags = vd_white_flags;        /* what validation leaves: an input */
+    return vd_white_p;
 }
 pixman_bool_t pixman_image_unref (pixman_image_t *image)
 {
-    if (image == &vd_white) vd_unref_white++;
-    else if (image == &vd_dest) vd_unref_mask++;
+    if (image == vd_white_p) vd_unref_white++;
+    else if (image == vd_dest_p) vd_unref_mask++;
     else vd_unref_other++;
     return TRUE;
 }
@@ -147,16 +166,16 @@ pixman_image_t *pixman_image_create_bits (pixman_format_code_t format, int width
     vd_ncreate++; vd_create_fmt = format; vd_create_w = width; vd_create_h = height; vd_create_bits = bits; vd_create_stride = stride;
     if (vd_create_fail)
         return (pixman_image_t *) 0;
-    vd_dest.type = BITS;
-    vd_dest.common.ref_count = 1;
-    vd_dest.bits.format = format; vd_dest.bits.width = width; vd_dest.bits.height = height;
-    vd_dest.common.extended_format_code = format;
-    vd_dest.common.flags = vd_mask_flags_after_validate;
-    return &vd_dest;
+    vd_dest_s.common.type = BITS;
+    vd_dest_s.common.ref_count = 1;
+    vd_dest_s.format = format; vd_dest_s.width = width; vd_dest_s.height = height;
+    vd_dest_s.common.extended_format_code = format;
+    vd_dest_s.common.flags = vd_mask_flags_after_validate;
+    return vd_dest_p;
 }
 void pixman_image_set_component_alpha (pixman_image_t *image, pixman_bool_t ca)
 {
-    if (image == &vd_dest) { vd_nca++; vd_ca_value = ca; } else vd_nca += 100;
+    if (image == vd_dest_p) { vd_nca++; vd_ca_value = ca; } else vd_nca += 100;
 }
 #if !VD_REAL_REGION
 void pixman_image_composite32 (pixman_op_t op, pixman_image_t *src, pixman_image_t *mask, pixman_image_t *dest,
@@ -173,19 +192,19 @@ void pixman_image_composite32 (pixman_op_t op, pixman_image_t *src, pixman_image
  * pixman_glyph_cache_insert: no repeat, so extended_format_code == bits.format); size, format and flags symbolic */
 static void vd_build_glyph (int i, vh_i32 gw, vh_i32 gh, vh_i32 ox, vh_i32 oy, vh_u32 fmt, vh_u32 flags)
 {
-    pixman_image_t *im = VD_GIMG (i);
+    bits_image_t *im = VD_GIMG_S (i);
     glyph_t *g = VD_GLYPH (i);
     VH_ASSUME (gw >= 0 && gw <= VD_GLYPH_MAX && gh >= 0 && gh <= VD_GLYPH_MAX);
     VH_ASSUME (VD_INR (ox) && VD_INR (oy));
     VH_ASSUME (fmt != PIXMAN_null);                  /* no image has the format code "no image" */
-    im->type = BITS;
+    im->common.type = BITS;
     im->common.ref_count = 1;
-    im->bits.format = (pixman_format_code_t) fmt; im->bits.width = gw; im->bits.height = gh;
+    im->format = (pixman_format_code_t) fmt; im->width = gw; im->height = gh;
     im->common.extended_format_code = (pixman_format_code_t) fmt;
     im->common.flags = flags;
     g->font_key = &vd_key[0]; g->glyph_key = &vd_key[1 + i];
     g->origin_x = ox; g->origin_y = oy;
-    g->image = im;
+    g->image = (pixman_image_t *) im;
 }
 /* entry i of the request draws glyph object `which` (0/1) at (x, y) */
 static void vd_build_entry (int i, int which, vh_i32 x, vh_i32 y)
@@ -232,63 +251,67 @@ static int vd_mru_ok (void)
     vd_build_entry (i, in_which##i, in_x##i, in_y##i)
 
 /* ------------------------------------------------------------------ specification side (long arithmetic, no pixman code) */
-typedef struct { long x1, y1, x2, y2; } vd_lbox;
+#ifndef VD_LONG
+#define VD_LONG long
+#endif
+typedef struct { VD_LONG x1, y1, x2, y2; } vd_lbox;
 typedef struct
 {
     const glyph_t *g;           /* the glyph object drawn */
-    long gx, gy;                /* where its top-left sample lands in the destination */
+    VD_LONG gx, gy;             /* where its top-left sample lands in the destination */
     vd_lbox d;                  /* drawn rectangle */
     vd_lbox clip;               /* the clip box it was cut with */
 } vd_expect;
-static vd_expect vd_exp[VD_MAXCALL];
 static int vd_nexp;
+/* comparison of one recorded call with its expectation: supplied by the harness (sets its ok_* flags) */
+static void vd_check_call (const vd_call_t *r, const vd_expect *e);
 
-/* one glyph against one clip box: appends the expected call if the intersection has a point */
-static void vd_spec_glyph_box (const glyph_t *g, long gx, long gy, const vd_lbox *clip)
+/* one glyph against one clip box: if the intersection has a point, the NEXT recorded call (calls come in request order,
+ * clip boxes in region order) must be the expected one.  The expectation is compared on the spot (one multiplexer over
+ * the recorded calls) instead of being stored in a second table (two multiplexers: measured 2x solver time). */
+static void vd_spec_glyph_box (const glyph_t *g, VD_LONG gx, VD_LONG gy, const vd_lbox *clip)
 {
-    long gw = g->image->bits.width, gh = g->image->bits.height;
-    vd_lbox d;
-    d.x1 = gx > clip->x1 ? gx : clip->x1;
-    d.y1 = gy > clip->y1 ? gy : clip->y1;
-    d.x2 = gx + gw < clip->x2 ? gx + gw : clip->x2;
-    d.y2 = gy + gh < clip->y2 ? gy + gh : clip->y2;
-    if (d.x1 < d.x2 && d.y1 < d.y2)
+    VD_LONG gw = g->image->bits.width, gh = g->image->bits.height;
+    vd_expect e;
+    e.g = g; e.gx = gx; e.gy = gy; e.clip = *clip;
+    e.d.x1 = gx > clip->x1 ? gx : clip->x1;
+    e.d.y1 = gy > clip->y1 ? gy : clip->y1;
+    e.d.x2 = gx + gw < clip->x2 ? gx + gw : clip->x2;
+    e.d.y2 = gy + gh < clip->y2 ? gy + gh : clip->y2;
+    if (e.d.x1 < e.d.x2 && e.d.y1 < e.d.y2)
     {
-        if (vd_nexp < VD_MAXCALL)
-        {
-            vd_exp[vd_nexp].g = g; vd_exp[vd_nexp].gx = gx; vd_exp[vd_nexp].gy = gy;
-            vd_exp[vd_nexp].d = d; vd_exp[vd_nexp].clip = *clip;
-        }
+        if (vd_nexp < VD_MAXCALL && vd_nexp < vd_ncalls)
+            vd_check_call (VD_CALL (vd_nexp), &e);
         vd_nexp++;
     }
 }
 
-/* geometry of recorded call c against expectation c; `glyph_is_mask`: the glyph is the mask operand (else the source) */
-static int vd_rect_ok (int c)
+/* geometry of a recorded call against its expectation; `glyph_is_mask`: the glyph is the mask operand (else the source) */
+static int vd_rect_ok (const vd_call_t *r, const vd_expect *e)
 {
-    const pixman_composite_info_t *in = &vd_call[c].info; const vd_expect *e = &vd_exp[c];
+    const pixman_composite_info_t *in = &r->info;
     return in->dest_x == e->d.x1 && in->dest_y == e->d.y1 &&
            in->width == e->d.x2 - e->d.x1 && in->height == e->d.y2 - e->d.y1;
 }
-static int vd_rect_inside_clip (int c)
+static int vd_rect_inside_clip (const vd_call_t *r, const vd_expect *e)
 {
-    const pixman_composite_info_t *in = &vd_call[c].info; const vd_expect *e = &vd_exp[c];
+    const pixman_composite_info_t *in = &r->info;
     return in->width > 0 && in->height > 0 &&
            in->dest_x >= e->clip.x1 && in->dest_y >= e->clip.y1 &&
            (long) in->dest_x + in->width <= e->clip.x2 && (long) in->dest_y + in->height <= e->clip.y2;
 }
 /* COVER promise (also a C04 obligation): the samples the routine will read from the glyph lie inside the glyph image */
-static int vd_cover_true (int c, int glyph_is_mask)
+static int vd_cover_true (const vd_call_t *r, const vd_expect *e, int glyph_is_mask)
 {
-    const pixman_composite_info_t *in = &vd_call[c].info; const vd_expect *e = &vd_exp[c];
-    long ox = glyph_is_mask ? in->mask_x : in->src_x, oy = glyph_is_mask ? in->mask_y : in->src_y;
+    const pixman_composite_info_t *in = &r->info;
+    VD_LONG ox = glyph_is_mask ? in->mask_x : in->src_x, oy = glyph_is_mask ? in->mask_y : in->src_y;
     return ox >= 0 && oy >= 0 && ox + in->width <= e->g->image->bits.width && oy + in->height <= e->g->image->bits.height;
 }
 /* the routine called is the one a lookup returned together with its implementation */
-static int vd_routine_from_lookup (int c)
+static int vd_routine_from_lookup (const vd_call_t *r)
 {
-    int k = vd_call[c].id;
-    return k >= 0 && k < vd_nlookup && k < VD_MAXLK && vd_call[c].imp == &vd_imp[k];
+    int k = r->id;
+    return k >= 0 && k < vd_nlookup && k < VD_MAXLK && r->imp == VD_IMP (k);
 }
 
 #endif
